@@ -845,7 +845,7 @@ func c12RunBatch(ctx *vh.Ctx, recipes []c12Recipe) error {
 }
 
 func runC12(ctx *vh.Ctx) error {
-	ctx.Res.Rule = "type-directed random values over a menu of registered Go types (structs with pointer depth 0-3, slices, maps with every registered key kind incl. struct keys whose entries differ in which fields are zero and pointer keys, any-typed fields/elements, named basics, recursive structs, eino's schema.Message) incl. nil at every pointer level, edge numbers/strings, shared (acyclic) pointers and unregistered defined basic types at every position; non-trivial = at least 3 value nodes and Marshal succeeded; distinct by (Go type, node count, pointer depth, nil pointers, nil-in-chain, any-held values, pointers to containers, outcome classes)"
+	ctx.Res.Rule = "type-directed random values over a menu of registered Go types (structs with pointer depth 0-3, slices, maps with every registered key kind incl. struct keys whose entries differ in which fields are zero and pointer keys, any-typed fields/elements, named basics, recursive structs, eino's schema.Message) incl. nil at every pointer level, edge numbers/strings, shared (acyclic) pointers and unregistered defined basic types at every position; non-trivial = at least 3 value nodes and Marshal succeeded; distinct by (Go type, node count, pointer depth, nil pointers, nil-in-chain, any-held values, pointers to containers, outcome classes); registry family: sequences of GenericRegister / RegisterSerializableType calls and round trips over a pool of unregistered types and a small pool of keys, one child process per sequence; non-trivial = at least 2 calls, 1 round trip and 1 clash or repeated pair; distinct by the step list"
 	if c12RegErr != nil {
 		return fmt.Errorf("menu registration failed: %v", c12RegErr)
 	}
@@ -858,6 +858,8 @@ func runC12(ctx *vh.Ctx) error {
 		case "loud":
 			c12RunLoudProbes(ctx)
 			return nil
+		case "registry":
+			return c12RegReplay(ctx)
 		case "blackbox":
 			var bc c12BBCase
 			if err := json.Unmarshal(ctx.Replay, &bc); err != nil {
@@ -884,6 +886,10 @@ func runC12(ctx *vh.Ctx) error {
 		return err
 	}
 	c12RunLoudProbes(ctx)
+	// the registry as an operation sequence, one child process per case (c12_reg.go)
+	if err := c12RunRegistry(ctx, ctx.N(240, 1200)); err != nil {
+		return err
+	}
 	// black box: interrupt + resume through a checkpoint store
 	bb := ctx.N(200, 3000)
 	for i := 0; i < bb && ctx.TimeLeft(); i++ {
